@@ -20,7 +20,7 @@ SKIP_MACROS = ("Bang:parser", "Derive:", "Attr:derive", "Bang:lazy_static", "Ban
 
 def run(ctx, rep, rid="R-C04-magnitude", crates=None):
     r = rep.rule(rid, "no integer range whose bounds come from a number written in the source (a literal node of the DSL, a parsed number) is walked "
-                      "element by element: work is bounded by the size of the input, not by the magnitude of its numbers", floor=1,
+                      "element by element: work is bounded by the size of the input, not by the magnitude of its numbers", floor=0,
                  floor_what="integer ranges consumed as iterators in hand-written product code")
     n = 0
     for b in sorted(ctx.prog.bodies.values(), key=lambda x: x.id):
